@@ -1693,6 +1693,12 @@ func (c *lruSessionCache) Put(sessionKey string, cs *ClientSessionState) {
 		return
 	}
 
+	if cs == nil {
+		// Putting nil deletes the entry; there is none, so there is nothing to do
+		// (in particular no live session must be evicted to store a nil state).
+		return
+	}
+
 	if c.q.Len() < c.capacity {
 		entry := &lruSessionCacheEntry{sessionKey, cs}
 		c.m[sessionKey] = c.q.PushFront(entry)
